@@ -133,3 +133,45 @@ fn native_chardat_damaged_nopanic() {
     }
     println!("NATIVE native_chardat_damaged_nopanic cases={cases}");
 }
+
+//@unit props=C09 label=B tier=quick native=1 fn=chardat::CharacterData::{write_to_buffer,from_existing,calc_checksum} bound="by execution: every (race, gender, tribe) code combination 8 x 2 x 16 with byte fields from 3 patterns (all 0, all 255, distinct per field), 5 timestamps, comments of 0, 1, 17, 162 and 163 bytes (ASCII and multi-byte), 3840 presets; the four presets under resources/tests/chardat"
+//@desc a written preset is 212 bytes: magic 0x2013FF14, version at 4, checksum at 8 (XOR over i of byte_i << (i mod 24) over the 196 bytes customize | 0 | timestamp LE | comment zero-padded to 164), the 27 appearance bytes at 16 in documented order, timestamp at 44, comment at 48; it parses back to the same values; a parsed canonical file is reproduced byte for byte
+#[test]
+fn native_chardat_files() {
+    let mut cases = 0u64;
+    for name in ["chardat/arr.dat", "chardat/heavensward.dat", "chardat/stormblood.dat", "chardat/shadowbringers.dat"] {
+        let v = native_resource(name);
+        let p = CharacterData::from_existing(&v).expect("canonical preset parses");
+        assert_eq!(p.write_to_buffer().expect("write"), v, "{name} is reproduced byte for byte");
+        cases += 1;
+    }
+    let comments: Vec<String> = vec![String::new(), "x".into(), "Custom Comment Text".into(), "c".repeat(162), format!("{}é", "d".repeat(161)), "e".repeat(163)];
+    for race in 1..=8u8 { for gender in 0..=1u8 { for tribe in 1..=16u8 { for pat in 0..3usize { for (ci, ts) in [0u32, 1, 1_600_000_000, 0x8000_0000, u32::MAX].iter().enumerate() {
+        let fb = |k: usize| -> u8 { match pat { 0 => 0, 1 => 255, _ => (k * 9 + race as usize + tribe as usize * 3) as u8 } };
+        let c = CustomizeData { race: Race::try_from(race).expect("race code"), gender: if gender == 0 { Gender::Male } else { Gender::Female }, age: fb(2), height: fb(3),
+            tribe: Tribe::try_from(tribe).expect("tribe code"), face: fb(5), hair: fb(6), enable_highlights: fb(7) % 2 == 1, skin_tone: fb(8), right_eye_color: fb(9), hair_tone: fb(10), highlights: fb(11),
+            facial_features: fb(12), facial_feature_color: fb(13), eyebrows: fb(14), left_eye_color: fb(15), eyes: fb(16), nose: fb(17), jaw: fb(18), mouth: fb(19), lips_tone_fur_pattern: fb(20),
+            race_feature_size: fb(21), race_feature_type: fb(22), bust: fb(23), face_paint: fb(24), face_paint_color: fb(25), voice: fb(26) };
+        let comment = comments[(ci + pat + race as usize) % comments.len()].clone();
+        let d = CharacterData { version: (1 + pat) as u32, customize: c.clone(), timestamp: *ts, comment: comment.clone() };
+        let b = d.write_to_buffer().expect("write");
+        assert_eq!(b.len(), 212, "preset size");
+        assert_eq!(u32::from_le_bytes(b[0..4].try_into().unwrap()), 0x2013FF14, "magic");
+        assert_eq!(u32::from_le_bytes(b[4..8].try_into().unwrap()), (1 + pat) as u32, "version");
+        let want: [u8; 27] = [race, gender, fb(2), fb(3), tribe, fb(5), fb(6), (fb(7) % 2 == 1) as u8, fb(8), fb(9), fb(10), fb(11), fb(12), fb(13), fb(14), fb(15), fb(16), fb(17), fb(18), fb(19), fb(20), fb(21), fb(22), fb(23), fb(24), fb(25), fb(26)];
+        assert_eq!(&b[16..43], &want[..], "appearance bytes at their documented positions");
+        assert_eq!(b[43], 0, "pad byte");
+        assert_eq!(u32::from_le_bytes(b[44..48].try_into().unwrap()), *ts, "timestamp at 44");
+        assert_eq!(&b[48..48 + comment.len()], comment.as_bytes(), "comment at 48");
+        assert!(b[48 + comment.len()..212].iter().all(|x| *x == 0), "comment padding");
+        let mut sum: u32 = 0;
+        for (i, x) in b[16..212].iter().enumerate() { sum ^= (*x as u32) << (i % 24); }
+        assert_eq!(u32::from_le_bytes(b[8..12].try_into().unwrap()), sum, "documented checksum at 8");
+        assert!(b[12..16].iter().all(|x| *x == 0));
+        let p = CharacterData::from_existing(&b).expect("a written preset parses");
+        assert_eq!((p.version, p.timestamp, &p.comment), ((1 + pat) as u32, *ts, &comment), "version, timestamp, comment read back");
+        assert_eq!(format!("{:?}", p.customize), format!("{:?}", c), "appearance read back");
+        cases += 1;
+    } } } } }
+    println!("NATIVE native_chardat_files cases={cases}");
+}
